@@ -432,6 +432,72 @@ func sequential(r *ev.Run, sd sysDef, u *uni.Universe, rng *rand.Rand, maxRoots 
 	for _, rt := range roots {
 		differ("defensive-copy-client", rt, run(sd.mk, c3, budget, rt))
 	}
+	// A client that keeps its own list of each package's versions, in an order
+	// of its own (Client.Versions promises none; a registry lists by upload
+	// time), and hands out that one slice on every call, as a memoising client
+	// does. The universe is the same, so the results must be; and the lists
+	// belong to the client: they must read the same after the resolutions.
+	for k := 0; k < 2; k++ {
+		lc := &listingClient{Client: u.Client(nil), lists: map[resolve.PackageKey][]resolve.Version{}, was: map[resolve.PackageKey]string{}, rng: rand.New(rand.NewSource(rng.Int63())), rotate: k == 0}
+		resL := sd.mk(lc)
+		for _, rt := range roots {
+			differ("own-listing-order", rt, run(func(resolve.Client) resolve.Resolver { return resL }, lc, budget, rt))
+		}
+		r.Count("own_listing_clients:"+sd.name, 1)
+		r.Count("own_listing_lists_handed_out:"+sd.name, int64(len(lc.lists)))
+		for pk, l := range lc.lists {
+			r.Eval(1)
+			if now := listingText(l); now != lc.was[pk] && !reported["listing"] {
+				reported["listing"] = true
+				r.Violation("C05:"+sd.name+":client-list-modified", fmt.Sprintf("%s: the slice a client returned from Versions(%v) reads differently after the resolutions: the resolver wrote into the client's data\n--- as handed out\n%s\n--- now\n%s", sd.name, pk, lc.was[pk], now),
+					Case{Sys: sd.name, Universe: u, Step: "client-list-modified"})
+			}
+		}
+	}
+}
+
+// listingClient answers Versions from lists of its own, one per package,
+// made on first use from the wrapped client's answer and permuted (the last
+// version moved to the front, or a seeded shuffle); every call returns the
+// same slice.
+type listingClient struct {
+	resolve.Client
+	mu     sync.Mutex
+	lists  map[resolve.PackageKey][]resolve.Version
+	was    map[resolve.PackageKey]string
+	rng    *rand.Rand
+	rotate bool
+}
+
+func (c *listingClient) Versions(ctx context.Context, pk resolve.PackageKey) ([]resolve.Version, error) {
+	c.mu.Lock()
+	defer c.mu.Unlock()
+	if l, ok := c.lists[pk]; ok {
+		return l, nil
+	}
+	vs, err := c.Client.Versions(ctx, pk)
+	if err != nil {
+		return vs, err
+	}
+	l := cloneVersions(vs)
+	if c.rotate && len(l) > 1 {
+		last := l[len(l)-1]
+		copy(l[1:], l[:len(l)-1])
+		l[0] = last
+	} else {
+		c.rng.Shuffle(len(l), func(i, j int) { l[i], l[j] = l[j], l[i] })
+	}
+	c.lists[pk] = l
+	c.was[pk] = listingText(l)
+	return l, nil
+}
+
+func listingText(l []resolve.Version) string {
+	var b strings.Builder
+	for _, v := range l {
+		fmt.Fprintf(&b, " %s%s", v.Version, v.AttrSet.String())
+	}
+	return b.String()
 }
 
 // copyGraph copies nodes (with errors) and edges (with cloned types), so that
